@@ -8,7 +8,7 @@ from pbt import gens, oracles as o
 from pbt.core import Outcome, Raised, SubCheck, bad, discard, import_dsw, lib_call
 
 PROPERTY = "C17"
-RULE = ("Arc subsets and generated graphs of order 1..4 drawn by Hypothesis; admissible order-1/2 graphs are also lifted to their higher-block presentation at order 5..7 (same non-zero spectrum, 1,024..16,384 vertices). The oracle decides the precondition: own "
+RULE = ("All 65,536 order-1 graphs are enumerated; arc subsets and generated graphs of order 1..4 are drawn by Hypothesis; admissible order-1/2 graphs are also lifted to their higher-block presentation at order 5..7 (same non-zero spectrum, 1,024..16,384 vertices). The oracle decides the precondition: own "
         "Tarjan SCCs, exactly one cyclic component, aperiodic (gcd of cycle lengths by BFS levels), spectral gap "
         "|lambda2| <= 0.85 lambda1 by numpy.linalg.eigvals on the component with numpy's lambda1 within 1e-6 of the "
         "certified radius (otherwise excluded and counted). Reference value: Collatz-Wielandt bounds on A+I until "
@@ -232,6 +232,16 @@ SUBCHECKS = [
              floors={"with_dead_arcs": 100, "d=3": 50, "d=2": 50}, rule=RULE),
     SubCheck("lifted_large_orders", evaluate_lifted, strategy=lifted_cases, examples=(120, 1500), shards=(16, 16),
              floors={"live_vertices>256": 20}, rule=RULE, timeout=300.0),
+    SubCheck("order1_all_graphs", evaluate_graph,
+             enum=(lambda tier: 16384 if tier == "quick" else 65536,
+                   lambda i, tier: (lambda g: {"graph": {"k": 1, "rows": [(g >> 12) & 15, (g >> 8) & 15, (g >> 4) & 15,
+                                                                         g & 15]},
+                                               "repeats": 2 + g % 3, "np_seed": g})(
+                       i if tier != "quick" else 4 * i + int(__import__("os").environ.get("VERIF_SEED", "1") or 1) % 4)),
+             shards=(16, 16), exhaustive_space="arc subsets of the order-1 de Bruijn graph (4 vertices): all 65,536 in "
+                                               "the thorough tier, every fourth one (offset by the seed) in the quick "
+                                               "tier; single deterministic start and 2..4 seeded random starts",
+             rule=RULE, timeout=120.0),
 ]
 
 TECHNIQUE = ("property-based testing (Hypothesis) against certified Collatz-Wielandt bounds computed per strongly "
